@@ -45,7 +45,7 @@ def check(ctx):
         else:
             eps += [[0], [0, 2], [1, 3], [-1, 4], [0, 1, 2, 3, 4]]
         for ep in eps:
-            for p in ("atoms", "array", "fp2", "crystal", "finite"):
+            for p in ("atoms", "array", "fp2", "fp1", "crystal", "finite"):
                 if p == "crystal" and sl != "uniform4":
                     continue
                 for b, d in itertools.product(("probe", "pw"), ("waves", "annular", "pix")):
@@ -53,8 +53,13 @@ def check(ctx):
                         continue
                     if q and isinstance(ep, list) and len(ep) > 2 and (b, d) not in (("probe", "pix"), ("pw", "waves")):
                         continue
+                    if p == "fp1" and (b, d) not in (("probe", "pix"), ("pw", "waves"), ("probe", "annular")):
+                        continue
                     for mean in ((False, True) if p == "fp2" else (False,)):
                         cases.append({"sl": sl, "ep": ep, "p": p, "b": b, "d": d, "mean": mean})
+                        # the same series evaluated lazily (every dask block holds ONE configuration and, for a single exit plane, no thickness axis)
+                        if p in ("atoms", "fp2", "fp1") and (b, d) in (("probe", "pix"), ("pw", "waves")) and not mean and (not q or not isinstance(ep, list) or len(ep) <= 2):
+                            cases.append({"sl": sl, "ep": ep, "p": p, "b": b, "d": d, "mean": mean, "lazy": True})
     ctx.run(cases, "run_case", rule="(slicing, exit planes, potential, builder, detector, mean); non-trivial = more than one exit plane")
 
 
@@ -70,6 +75,8 @@ def make_potential(c, exit_planes):
         return abtem.Potential(a, gpts=U.GPTS, slice_thickness=st, exit_planes=ep)
     if c["p"] == "finite":
         return abtem.Potential(a, gpts=U.GPTS, slice_thickness=st, exit_planes=ep, projection="finite")
+    if c["p"] == "fp1":
+        return abtem.Potential(U.frozen_phonons("A1", 1, False), gpts=U.GPTS, slice_thickness=st, exit_planes=ep)
     if c["p"] == "fp2":
         return abtem.Potential(U.frozen_phonons("A1", 2, c["mean"]), gpts=U.GPTS, slice_thickness=st, exit_planes=ep)
     if c["p"] == "array":
@@ -101,7 +108,7 @@ def run_case(c):
     thick = tuple(pot.slice_thickness)
     n = len(thick)
     sc = "custom" if c["b"] == "probe" else "none"
-    series = U.simulate(c["b"], pot, U.detector(c["d"]), U.scan(sc), False)[0]
+    series = U.simulate(c["b"], pot, U.detector(c["d"]), U.scan(sc), bool(c.get("lazy", False)))[0]
     tr += 1
     full = U.simulate(c["b"], make_potential(c, None), U.detector(c["d"]), U.scan(sc), False)[0]
     tr += 1
@@ -123,11 +130,11 @@ def run_case(c):
             bad("axis/length", "%d entries for %d exit planes" % (arr.shape[ax], len(planes)))
             return {"viol": viol}
     # reference potential slices (per configuration for the ensemble)
-    ens = c["p"] == "fp2"
+    ens = c["p"] in ("fp2", "fp1")
     if ens:  # one reference potential per displaced configuration, built independently of the ensemble machinery
         st = SLICINGS[c["sl"]]
         cfg_arrays = []
-        for a in U.frozen_phonons("A1", 2, False):
+        for a in U.frozen_phonons("A1", 2 if c["p"] == "fp2" else 1, False):
             built = abtem.Potential(a, gpts=U.GPTS, slice_thickness=tuple(st) if isinstance(st, list) else st).build(lazy=False)
             cfg_arrays.append(np.asarray(built.array))
     else:
@@ -166,7 +173,7 @@ def run_case(c):
         worst = max(worst, e)
         if not e <= 1.0:
             kind = "entrance" if p == -1 else ("last" if p == n - 1 else "intermediate")
-            bad("entry/%s/%s" % (kind, "ensemble" if ens else "single"), "exit plane %d (entry %d of %r): max|d| = %s on %.3g, shapes %r vs %r" % (
+            bad("entry/%s/%s%s" % (kind, "ensemble" if ens else "single", "/lazy" if c.get("lazy") else ""), "exit plane %d (entry %d of %r): max|d| = %s on %.3g, shapes %r vs %r" % (
                 p, j, planes, float(np.abs(got - ref).max()) if got.shape == ref.shape else "shape", float(np.abs(ref).max()), got.shape, ref.shape))
     if planes[-1] == n - 1:
         last = arr if ax is None else np.take(arr, len(planes) - 1, axis=ax)
